@@ -244,7 +244,13 @@ def check(ctx):
         t = norm_text(src).replace(' ', '')
         oi = outer[0].target.elts[0].id if isinstance(outer[0].target, ast.Tuple) and isinstance(outer[0].target.elts[0], ast.Name) else None
         ok = oi is not None and t.endswith(f'[{oi}+1:]')
-        ctx.ob('R3', fi, src, True if ok else (False if oi is not None and t.endswith(f'[{oi}:]') else None),
+        ofr = outer[3]
+        if ok and ofr is not None and ofr.labels_permuted:
+            ctx.ob('R3', fi, src, False, 'the row label of the outer scan is used as a position, but the table was sorted without renumbering its rows '
+                                         '(sort_values without ignore_index / reset_index): pairs are skipped and others are reported twice')
+            ok = None
+        else:
+          ctx.ob('R3', fi, src, True if ok else (False if oi is not None and t.endswith(f'[{oi}:]') else None),
                'inner scan starts at the row after the outer one' if ok else
                'the inner scan includes the outer row itself / earlier rows: pairs are reported twice or a jump is paired with itself')
     # ---- R4
